@@ -13,10 +13,15 @@
   * `RemoteCoherent e`, `api.name = kind.name`  — see Tie_apiGetRemote.lean;
   * `hold`, `hnew` : the hooks get `cfg.current_version` / `new_version`; the model's events carry
     `startVersion` / `announced`;
-  * `hx`  : `str(ex)` of the CalledProcessError does not contain "already tracked!".  WITHOUT it model and
-    code differ (`vcsCommit_already_tracked_differs`): `VCSAPI.add` swallows such a failure and goes on to
-    commit.  `str(CalledProcessError)` is "Command '[...argv...]' returned non-zero exit status N": it
-    contains the argv, not hg's stderr, so the test can only fire when a configured PATH contains the text.
+  * `notTracked` : ONLY for Mercurial (`kind = hg`): the failing command's OWN stderr does not contain
+    "already tracked!" — exactly the case `VCSAPI.add` is meant to ignore
+    (`vcsCommit_hg_already_tracked_ignored`: then the failing `add` is swallowed, by design, and the run goes on;
+    the hand model has no such case).  For git there is NO hypothesis about any text (`tie_apiAdd_git`,
+    `vcsCommit_git_stderr_irrelevant`): a failing `git add` always propagates.  What the test looks at is
+    `self.name == 'hg' and … in (ex.stderr or b"")`, NOT `str(ex)`: `apiAdd_independent_of_excText` /
+    `vcsCommit_independent_of_excText` prove that the text of the exception (it contains the argv, hence every
+    configured PATH) does not matter.  (Until /repo commit 58b6007 the test was `"already tracked!" in str(ex)`:
+    a path containing these words made a failing add disappear, for git and hg.)
 -/
 import BumpverVerif.Gen.F_vcsCommit
 import BumpverVerif.Proofs.Tie_apiGetRemote
@@ -24,14 +29,46 @@ set_option linter.unusedSimpArgs false
 namespace BV
 open GenE
 
-/-- the text `VCSAPI.add` looks for in `str(ex)` -/
+/-- the text `VCSAPI.add` looks for in the stderr of the failing command -/
 def alreadyTracked : Str := ['a', 'l', 'r', 'e', 'a', 'd', 'y', ' ', 't', 'r', 'a', 'c', 'k', 'e', 'd', '!']
 
+/-- `VCSAPI.add` in general: a failing invocation is swallowed iff the VCS is Mercurial AND its stderr says
+    "already tracked!" -/
+theorem apiAdd_spec (e : EffEnv) (s : PState) (api : VcsApi) (p : Str) :
+    apiAdd api p e s =
+      (match vcsCall e.plan (.add p) s with
+       | (s', .ok) => (s', .ok ())
+       | (s', .failed) =>
+         if (api.name == ['h', 'g'] && isInfix alreadyTracked e.excStderr) then (s', .ok ())
+         else (s', .error .called)) := by
+  have hnil : isInfix ['a', 'l', 'r', 'e', 'a', 'd', 'y', ' ', 't', 'r', 'a', 'c', 'k', 'e', 'd', '!'] [] = false := by
+    decide
+  unfold alreadyTracked apiAdd
+  -- the name test in both orientations (`self.name == 'hg'` / `'hg' == self.name`)
+  have hname : (['h', 'g'] = api.name) = (api.name = ['h', 'g']) := propext ⟨Eq.symm, Eq.symm⟩
+  by_cases hx : isInfix ['a', 'l', 'r', 'e', 'a', 'd', 'y', ' ', 't', 'r', 'a', 'c', 'k', 'e', 'd', '!'] e.excStderr = true
+  · have hne : e.excStderr ≠ [] := by
+      intro h; rw [h] at hx; revert hx; decide
+    eff_simp [Eff.excStderr, hname]; eff_auto [Eff.excStderr, hname]
+  · eff_simp [Eff.excStderr, hname]; eff_auto [Eff.excStderr, hname]
+
 theorem tie_apiAdd (e : EffEnv) (s : PState) (api : VcsApi) (p : Str)
-    (hx : isInfix alreadyTracked e.excText = false) :
+    (hx : (api.name == ['h', 'g'] && isInfix alreadyTracked e.excStderr) = false) :
     apiAdd api p e s = Eff.liftC () (vcsCall e.plan (.add p) s) := by
-  unfold alreadyTracked at hx
-  unfold apiAdd; eff_simp; eff_auto
+  rw [apiAdd_spec, hx]
+  rcases vcsCall e.plan (.add p) s with ⟨s', o⟩
+  cases o <;> rfl
+
+/-- for git NO text plays a role: a failing `git add` always propagates -/
+theorem tie_apiAdd_git (e : EffEnv) (s : PState) (api : VcsApi) (p : Str) (hk : api.name = ['g', 'i', 't']) :
+    apiAdd api p e s = Eff.liftC () (vcsCall e.plan (.add p) s) :=
+  tie_apiAdd e s api p (by rw [hk]; rfl)
+
+/-- the text of the exception (`str(ex)`: "Command '[argv]' returned non-zero exit status N", i.e. the
+    configured path) plays no role any more, for either VCS -/
+theorem apiAdd_independent_of_excText (e : EffEnv) (s : PState) (api : VcsApi) (p t : Str) :
+    apiAdd api p { e with excText := t } s = apiAdd api p e s := by
+  rw [apiAdd_spec, apiAdd_spec]
 
 theorem tie_apiCommit (e : EffEnv) (s : PState) (api : VcsApi) (m : Str) :
     apiCommit api m e s = Eff.liftC () (vcsCall e.plan (.cmd "commit") s) := by
@@ -70,18 +107,29 @@ def absCfgE {α : Type} (tagMsg : Str) (c : Config α) : PlanCfg :=
     preHook := !c.pre_commit_hook.isEmpty, postHook := !c.post_commit_hook.isEmpty,
     scopeBranch := c.tag_scope == .BRANCH, tagMsgEmpty := tagMsg.isEmpty }
 
+/-- from "the object is the environment's VCS" and "hg's own stderr does not say already tracked" -/
+theorem addGuard_false (e : EffEnv) (api : VcsApi) (hk : api.name = e.plan.kind.name)
+    (hx : e.plan.kind = .hg → isInfix alreadyTracked e.excStderr = false) :
+    (api.name == ['h', 'g'] && isInfix alreadyTracked e.excStderr) = false := by
+  rw [hk]
+  cases hkind : e.plan.kind with
+  | git => rfl
+  | hg => simp [VcsKind.name, hx hkind]
+
 /-- everything the commit-phase tie assumes about the environment -/
 structure CommitCoherent {α : Type} (e : EffEnv) (cfg : Config α) (api : VcsApi) (new_version : Str) : Prop where
   remote : RemoteCoherent e
   kind : api.name = e.plan.kind.name
-  notTracked : isInfix alreadyTracked e.excText = false
+  /-- only for Mercurial: the failing command's OWN stderr does not say "already tracked!" -/
+  notTracked : e.plan.kind = .hg → isInfix alreadyTracked e.excStderr = false
   old : cfg.current_version = e.plan.startVersion
   new : new_version = e.plan.announced
 
 theorem tie_vcsCommit {α : Type} (e : EffEnv) (s : PState) (cfg : Config α) (api : VcsApi)
     (new_version cm tm : Str) (h : CommitCoherent e cfg api new_version) (hcommit : cfg.commit = true) :
     Eff.view (vcsCommit cfg api e.plan.files new_version cm tm e s) = commitPhase e.plan (absCfgE tm cfg) s := by
-  obtain ⟨hc, hk, hx, hold, hnew⟩ := h
+  obtain ⟨hc, hk, hx0, hold, hnew⟩ := h
+  have hx := addGuard_false e api hk hx0
   have hAdd := Eff.forIn_addAll e (vcsCommit.body_1 api)
     (by intro p s; unfold vcsCommit.body_1; eff_simp [tie_apiAdd e s api p hx]; eff_auto)
   have hCommit := fun m s => tie_apiCommit e s api m
@@ -106,7 +154,8 @@ theorem vcsCommit_stop_kinds {α : Type} (e : EffEnv) (s : PState) (cfg : Config
     match (vcsCommit cfg api e.plan.files new_version cm tm e s).2 with
     | .error x => x = .called ∨ x = .exit 1
     | .ok _ => True := by
-  obtain ⟨hc, hk, hx, hold, hnew⟩ := h
+  obtain ⟨hc, hk, hx0, hold, hnew⟩ := h
+  have hx := addGuard_false e api hk hx0
   have hAdd := Eff.forIn_addAll e (vcsCommit.body_1 api)
     (by intro p s; unfold vcsCommit.body_1; eff_simp [tie_apiAdd e s api p hx]; eff_auto)
   have hCommit := fun m s => tie_apiCommit e s api m
@@ -123,29 +172,65 @@ private def exCfg : Config Unit :=
   { current_version := ['1'], version_pattern := [], pep440_version := ['1'], commit_message := [],
     tag_message := [], tag_scope := .DEFAULT, pre_commit_hook := ['h'], post_commit_hook := [],
     commit := true, tag := true, push := true, is_new_pattern := true, file_patterns := () }
-private def exPlan (f : Option Nat) : PlanEnv :=
-  ⟨.git, true, f, true, false, false, true, true, true, true, true, [['a'], ['b']], ['1'], ['2']⟩
-private def exEnv (f : Option Nat) (txt : Str) : EffEnv :=
-  { plan := exPlan f, output := fun _ => [],
+private def exPlan (k : VcsKind) (f : Option Nat) : PlanEnv :=
+  ⟨k, true, f, true, false, false, true, true, true, true, true, [['a'], ['b']], ['1'], ['2']⟩
+private def exEnv (k : VcsKind) (f : Option Nat) (err : Str) : EffEnv :=
+  { plan := exPlan k f, output := fun _ => [],
     branchMatches := fun _ => [fun g => if g == "is_current" then some ['*'] else if g == "remote" then some ['o'] else none],
-    excText := txt, osErrno := 0 }
-private def exApi : VcsApi := ⟨['g', 'i', 't']⟩
+    excText := [], excStderr := err, osErrno := 0 }
+private def exApi (k : VcsKind) : VcsApi := ⟨k.name⟩
 
-example : CommitCoherent (exEnv (some 3) []) exCfg exApi ['2'] :=
+example : CommitCoherent (exEnv .git (some 3) []) exCfg (exApi .git) ['2'] :=
+  ⟨⟨by decide, by decide, by decide⟩, by decide, by decide, by decide, by decide⟩
+/-- for git the hypotheses hold whatever the stderr says -/
+example : CommitCoherent (exEnv .git (some 3) alreadyTracked) exCfg (exApi .git) ['2'] :=
   ⟨⟨by decide, by decide, by decide⟩, by decide, by decide, by decide, by decide⟩
 
 /-- a full run: pre hook, two adds, commit, tag (lightweight: empty message), remote lookup, push_tag -/
-example : (Eff.view (vcsCommit exCfg exApi (exPlan none).files ['2'] [] [] (exEnv none []) ⟨[], 0⟩)).1.evs.reverse
+example : (Eff.view (vcsCommit exCfg (exApi .git) (exPlan .git none).files ['2'] [] [] (exEnv .git none []) ⟨[], 0⟩)).1.evs.reverse
     = [.preHook ['1'] ['2'], .add ['a'], .add ['b'], .cmd "commit", .cmd "tag_light", .cmd "ls_branches",
        .cmd "push_tag"] := by decide
 
-/-- FINDING: when the text of the CalledProcessError contains "already tracked!" (a configured path that
-    contains these words), a failing `add` is swallowed by `VCSAPI.add` and the run goes on to commit,
-    tag and push; the hand model stops at the failing `add`. -/
-theorem vcsCommit_already_tracked_differs :
-    let e := exEnv (some 0) alreadyTracked
-    (Eff.view (vcsCommit exCfg exApi e.plan.files ['2'] [] [] e ⟨[], 0⟩)).2 = .ok ∧
+/-- the Mercurial case, BY DESIGN: when the failing `hg add` itself reports "already tracked!" on stderr, the
+    failure is ignored and the run goes on to commit, tag and push.  The hand model has no such case (it stops
+    at the failing `add`), hence the hypothesis `notTracked` of the tie. -/
+theorem vcsCommit_hg_already_tracked_ignored :
+    let e := exEnv .hg (some 0) alreadyTracked
+    (Eff.view (vcsCommit exCfg (exApi .hg) e.plan.files ['2'] [] [] e ⟨[], 0⟩)).2 = .ok ∧
     (commitPhase e.plan (absCfgE [] exCfg) ⟨[], 0⟩).2 = .failed := by
   decide
+
+/-- the same stderr under git: the failing add stops the run, as in the model (git quotes the path in its own
+    messages, so its stderr must not be trusted either) -/
+theorem vcsCommit_git_stderr_irrelevant :
+    let e := exEnv .git (some 0) alreadyTracked
+    (Eff.view (vcsCommit exCfg (exApi .git) e.plan.files ['2'] [] [] e ⟨[], 0⟩)).2 = .failed ∧
+    (Eff.view (vcsCommit exCfg (exApi .git) e.plan.files ['2'] [] [] e ⟨[], 0⟩)).1.evs
+      = (commitPhase e.plan (absCfgE [] exCfg) ⟨[], 0⟩).1.evs ∧
+    (commitPhase e.plan (absCfgE [] exCfg) ⟨[], 0⟩).2 = .failed := by
+  decide
+
+/-- … whereas the words in the exception TEXT (a configured path named `… already tracked! …`) change nothing:
+    the whole commit phase is independent of `excText` -/
+theorem vcsCommit_independent_of_excText {α : Type} (e : EffEnv) (s : PState) (cfg : Config α) (api : VcsApi)
+    (files : List Str) (new_version cm tm t : Str) :
+    vcsCommit cfg api files new_version cm tm { e with excText := t } s
+      = vcsCommit cfg api files new_version cm tm e s := by
+  have hAdd := fun p s => apiAdd_independent_of_excText e s api p t
+  have hBody : ∀ p s, vcsCommit.body_1 api p { e with excText := t } s = vcsCommit.body_1 api p e s := by
+    intro p s; unfold vcsCommit.body_1; eff_simp <;> eff_auto
+  have hLoop := fun s => Eff.forIn_env_congr (vcsCommit.body_1 api) { e with excText := t } e hBody files s
+  have hRemote : ∀ s, apiGetRemote api { e with excText := t } s = apiGetRemote api e s := by
+    intro s; unfold apiGetRemote; eff_simp <;> eff_auto
+  have hCommit : ∀ m s, apiCommit api m { e with excText := t } s = apiCommit api m e s := by
+    intro m s; unfold apiCommit; eff_simp <;> eff_auto
+  have hTag : ∀ a b s, apiTag api a b { e with excText := t } s = apiTag api a b e s := by
+    intro a b s; unfold apiTag; eff_simp <;> eff_auto
+  have hPushTag : ∀ a s, apiPushTag api a { e with excText := t } s = apiPushTag api a e s := by
+    intro a s; unfold apiPushTag; eff_simp <;> eff_auto
+  have hPush : ∀ s, apiPush api { e with excText := t } s = apiPush api e s := by
+    intro s; unfold apiPush; eff_simp <;> eff_auto
+  unfold vcsCommit
+  eff_simp <;> eff_auto
 
 end BV
